@@ -1,3 +1,4 @@
+import PedVerif.Props.CheckerIR
 import PedVerif.Lemmas.CheckerEnvs
 import PedVerif.Lemmas.CheckerNoTV
 import PedVerif.Lemmas.CallLayer4
